@@ -37,8 +37,10 @@ def discharge(e, obligations=None, timeout_ms=120000, group=True, max_models=8):
         t = time.time(); res.queries += 1
         if len(ls) == 1: r = e.solver.check(ls[0][1]) if ls[0][1] is not True else e.solver.check()
         else:
-            d = _lit(e, z3.Or(*[l for _, l in ls]), 'obgrp')
-            r = e.solver.check(d)
+            if any(l is True for _, l in ls): r = e.solver.check()
+            else:
+                d = _lit(e, z3.Or(*[l for _, l in ls]), 'obgrp')
+                r = e.solver.check(d)
         res.solver_time += time.time() - t
         return r
 
@@ -57,7 +59,7 @@ def discharge(e, obligations=None, timeout_ms=120000, group=True, max_models=8):
         if r == z3.sat and len(res.failed) < max_models:
             # use the model to pick one violated obligation directly
             m = e.solver.model()
-            hit = [x for x in ls if z3.is_true(m.eval(x[1], model_completion=True))]
+            hit = [x for x in ls if x[1] is True or z3.is_true(m.eval(x[1], model_completion=True))]
             if hit:
                 res.failed.append((hit[0][0], m, 'sat'))
                 rest = [x for x in ls if x is not hit[0]]
